@@ -95,6 +95,23 @@ def discover(udp_port, nsources=6):
             s.close()
 
 
+def spoof_request_from_port_zero(udp_port):
+    """a discovery request with source port 0 over loopback (raw socket; needs CAP_NET_RAW): the answer to it cannot be
+    sent.  -> True if the datagram went out"""
+    import struct
+    try:
+        raw = socket.socket(socket.AF_INET, socket.SOCK_RAW, socket.IPPROTO_UDP)
+    except OSError:
+        return False
+    try:
+        raw.sendto(struct.pack('!HHHH', 0, udp_port, 8 + len(REQUEST), 0) + REQUEST, ('127.0.0.1', 0))
+        return True
+    except OSError:
+        return False
+    finally:
+        raw.close()
+
+
 def impl_server(case):
     """case: {'ifaces': ['free'|'zero', ...], 'rounds': [[blocked iface indices], ...]} -> {'rounds': [obs, ...]} """
     import frappy.protocol.discovery as discovery
@@ -179,7 +196,9 @@ def impl_server(case):
                     bound.append(0)
             candidates = sorted(set(p for p in ports if p) | set(b for b in bound if b))
             live = [l for l in listeners if l.sock.fileno() != -1]
+            spoofed = bool(case.get('spoof')) and spoof_request_from_port_zero(discovery.UDP_PORT)
             obs = {
+                'spoofed': spoofed,
                 'blocked': blocked,
                 'configured': [['tcp', p] for p in ports],
                 'reported': [[u.split('://')[0], int(u.split('://')[1]), b] for u, b in zip(ifobjs, bound)],
